@@ -132,13 +132,18 @@ fn gen_history(rng: &mut StdRng, nops: usize, delete_all: bool, avoid_f0: bool, 
             if avoid_f0 && fresh_writer {
                 continue;
             }
-            let pred = match if terms_only { 0 } else { rng.random_range(0..10) } {
+            let pred = match if terms_only { 0 } else { rng.random_range(0..12) } {
                 0..=5 => json!({"k":"term","t":pick(rng, terms)}),
                 6..=7 => {
                     let lo = rng.random_range(-3..8);
                     json!({"k":"vrange","lo":lo,"hi":lo + rng.random_range(0..3)})
                 }
-                _ => json!({"k":"id","id":rng.random_range(1..next_id.max(2))}),
+                8..=9 => json!({"k":"id","id":rng.random_range(1..next_id.max(2))}),
+                _ => {
+                    // boolean delete predicates: term OR range / term AND NOT range
+                    let lo = rng.random_range(-3..8);
+                    json!({"k":if rng.random_bool(0.5) { "or" } else { "andnot" },"t":pick(rng, terms),"lo":lo,"hi":lo + rng.random_range(0..3)})
+                }
             };
             ops.push(json!({"op":"del","pred":pred}));
             pending_ops += 1;
